@@ -11,6 +11,7 @@ import (
 	"net"
 	"net/http"
 	"strconv"
+	"sync"
 	"time"
 
 	krbconfig "github.com/bolkedebruin/gokrb5/v8/config"
@@ -141,8 +142,10 @@ func vpResetK() {
 
 // GetKDCs contract (gokrb5 randServOrder): error for an unknown realm, else (n, map{1..n -> host}).
 func vpGetKDCs(c *krbconfig.Config, realm string, tcp bool) (int, map[int]string, error) {
+	vpKMu.Lock()
 	vpKdcCalls++
 	vpRealmSeen = realm
+	vpKMu.Unlock()
 	if vpUnknown || (vpRealmCheck && !vpRealmConfigured(realm)) {
 		return 0, map[int]string{}, errors.New("vp: no KDCs defined for realm")
 	}
@@ -152,12 +155,27 @@ func vpGetKDCs(c *krbconfig.Config, realm string, tcp bool) (int, map[int]string
 		n = vpTCPn
 		p = "tcp-kdc-"
 	}
+	if n > 1 {
+		// randServOrder picks the servers in random order and, while it does so, swaps entries of the list
+		// it was given — which is the realm's list inside the Config, not a copy. Nothing in gokrb5
+		// synchronises this: callers that share a Config have to.
+		vpRealmList.first, vpRealmList.last = vpRealmList.last, vpRealmList.first
+	}
 	m := map[int]string{}
 	for i := 1; i <= n; i++ {
 		m[i] = p + vpItoa(i)
 	}
 	return n, m, nil
 }
+
+// vpLibShared stands for state inside a library value that the repository's code shares between requests
+// (here: the KDC list of a realm inside gokrb5's Config). Accesses to it count for the lockset analysis.
+type vpLibShared struct{ first, last string }
+
+var vpRealmList = &vpLibShared{first: "kdc-1", last: "kdc-n"}
+
+// vpKMu guards the harness's own bookkeeping where requests run on threads of their own.
+var vpKMu sync.Mutex
 
 // ResolveRealm contract (gokrb5): the realm mapped to a DNS domain by [domain_realm], else "".
 // No mapping is configured here.
@@ -172,8 +190,10 @@ func vpRealmConfigured(realm string) bool {
 }
 
 func vpNetDial(network, address string) (net.Conn, error) {
+	vpKMu.Lock()
 	vpDialLog = append(vpDialLog, network+"!"+address)
 	k := vpItoa(len(vpDialLog))
+	vpKMu.Unlock()
 	if address == "" || vpAllDialsFail || (!vpAlwaysReply && vpBool("dial-fails-"+k)) {
 		return nil, errors.New("vp: connection refused")
 	}
@@ -585,4 +605,31 @@ func VP_C20_two_requests() {
 	for _, c := range vpConns {
 		vpAssert(c.closed, "kdc-connection-closed-afterwards")
 	}
+}
+
+
+//vp:property C09 C20
+//vp:flag lockset
+//vp:bounds two requests for one realm with two TCP KDCs are forwarded at the same time through ONE proxy value (the HTTP server runs every request on a goroutine of its own); both KDCs refuse the connection, so each request ends after its look-ups and dial attempts
+//vp:assume lockset: the realm's KDC list inside gokrb5's Config is written by every GetKDCs call (randServOrder shuffles the list it is given in place — read from the library source, modelled by the stub); two such calls from different requests without a common mutex are a race (replayed natively under the race detector)
+//vp:reach done
+func VP_C09_kdc_lookups() {
+	vpThread("setup")
+	vpResetK()
+	vpRealmCheck, vpUnknown = true, false
+	vpUDPn, vpTCPn = 0, 2
+	vpAllDialsFail = true
+	proxy := vpProxy()
+	var errs [2]error
+	vpPar(func() {
+		vpThread("A")
+		_, errs[0] = proxy.forward("BRANCH.TEST", []byte{0, 0, 0, 1, 0x60})
+	}, func() {
+		vpThread("B")
+		_, errs[1] = proxy.forward("BRANCH.TEST", []byte{0, 0, 0, 1, 0x61})
+	})
+	vpThread("setup")
+	vpReach("done")
+	vpAssert(errs[0] != nil && errs[1] != nil, "no-kdc-reachable-is-an-error-for-each-request")
+	vpAssert(len(vpDialLog) == 4, "each-request-tries-both-kdcs")
 }
